@@ -59,6 +59,11 @@ PINS = [
     'mesonbuild.mintro:write_intro_info',
     'mesonbuild.dependencies.base:Dependency.__init__',
     'mesonbuild.depfile:DepFile.get_all_dependencies',
+    'mesonbuild.interpreter.interpreter:Interpreter.add_build_def_file',
+    'mesonbuild.interpreter.interpreter:Interpreter.func_configure_file',
+    'mesonbuild.interpreter.interpreter:Interpreter.run_command_impl',
+    'mesonbuild.interpreter.interpreter:Interpreter.get_build_def_files',
+    'mesonbuild.backend.backends:Backend.get_regen_filelist',
     'mesonbuild.modules.pkgconfig:DependenciesHelper',
     'mesonbuild.modules.pkgconfig:PkgConfigModule.generate',
     'mesonbuild.modules.cmake:CmakeModule.configure_package_config_file',
@@ -91,8 +96,12 @@ TRUSTED = [
     'it is byte-compared but carries no information beyond build.ninja',
     'directory-listing order is varied by a sitecustomize shim that permutes os.listdir/os.scandir results in the '
     'meson process (ext4 lists by name hash, creation order alone would not vary it)',
-    'held fixed, not modelled: compiler/tool detection output, absolute paths (every run of one project uses the same '
-    'scratch location), wall-clock strings',
+    'held fixed, not modelled: compiler/tool detection output, wall-clock strings; absolute paths: all runs of one '
+    'history share one scratch location; the placement of the build directory (sibling / below the source dir / below a '
+    'subdirectory of it / source reached through a symlinked path), the spelling of both directories (relative, absolute, '
+    'trailing slash) and the working directory (root, source dir, build dir, elsewhere) are varied; results are compared '
+    'within one placement (byte for byte after substituting the scratch root), not across placements (relative paths '
+    'between the two directories legitimately differ)',
     'mtime oracle reads "configure-time output" as: configure_file outputs (incl. cmake package files), pkg-config '
     'files, depmf.json, meson-info/intro-*.json, compile_commands.json; build.ninja is only required to keep its '
     'content (ninja needs it newer than its inputs); files written by a user command of configure_file(command:) '
@@ -560,10 +569,28 @@ def fixed_steps(rng, deep: bool, history: str) -> T.List[dict]:
         for _ in range(4):
             steps.insert(4, dict(kind='fresh', hashseed=rng.randint(0, 2**32 - 1), envseed=r(), treeseed=r(), listseed=r(), metaseed=r()))
         steps.append(dict(kind='reconf', hashseed=rng.randint(0, 2**32 - 1), envseed=r(), treeseed=0, listseed=r()))
+    for st in steps[1:]:
+        st['spell'] = rng.choice(S.SPELLINGS)
+        st['cwd'] = rng.choice(S.CWDS)
     if deep or history == 'roundtrip':
         steps.append(dict(kind='roundtrip', hashseed=rng.randint(0, 2**32 - 1), envseed=r(), treeseed=0, listseed=r()))
     if deep or history == 'wipe':
         steps.append(dict(kind='wipe', hashseed='random', envseed=r(), treeseed=0, listseed=r()))
+    return steps
+
+
+def placement_steps(rng) -> T.List[dict]:
+    """the history every placement of the build directory gets: fresh, no-change reconfigure, wipe — each spelled
+    differently and run from a different working directory"""
+    r = lambda: rng.randint(2, 10**6)  # noqa: E731
+    steps = [
+        dict(kind='fresh', hashseed=0, envseed=0, treeseed=0, listseed='none', metaseed=0),
+        dict(kind='reconf', hashseed=rng.randint(0, 2**32 - 1), envseed=r(), treeseed=0, listseed=r()),
+        dict(kind='wipe', hashseed=rng.randint(0, 2**32 - 1), envseed=r(), treeseed=0, listseed=r()),
+    ]
+    for st in steps[1:]:
+        st['spell'] = rng.choice(S.SPELLINGS)
+        st['cwd'] = rng.choice(S.CWDS)
     return steps
 
 
@@ -580,7 +607,8 @@ def gen_steps(rng) -> T.List[dict]:
 def check_project(ctx: Ctx, pname: str, recs: T.List[dict], replay_extra: dict, user_outputs: T.Set[str]) -> None:
     """the property, stated on the snapshots of one project's runs"""
     def case(i: int, j: int, rel: str, extra: T.Optional[dict] = None) -> dict:
-        c = {'type': 'system', 'project': pname, 'steps': [recs[k]['step'] for k in range(0, j + 1)], 'compare': [i, j], 'file': rel}
+        c = {'type': 'system', 'project': pname, 'geom': replay_extra.get('geom', 'sibling'),
+             'steps': [recs[k]['step'] for k in range(0, j + 1)], 'compare': [i, j], 'file': rel}
         c.update(replay_extra)
         c.update(extra or {})
         return c
@@ -643,19 +671,20 @@ def check_project(ctx: Ctx, pname: str, recs: T.List[dict], replay_extra: dict, 
                         ctx.tag('mtime-kept:' + cls)
 
 
-def run_fixed(name: str, root0: str, steps: T.List[dict]) -> T.List[dict]:
-    root = os.path.join(root0, name)
+def run_fixed(name: str, root0: str, steps: T.List[dict], geom: str = 'sibling') -> T.List[dict]:
+    root = os.path.join(root0, name + '.' + geom)
     os.makedirs(root, exist_ok=True)
-    return S.run_plan(os.path.join(S.PROJECTS, name), root, steps)
+    return S.run_plan(os.path.join(S.PROJECTS, name), root, steps, geom=geom)
 
 
-def run_generated(idx: int, files: T.Dict[str, str], root0: str, steps: T.List[dict]) -> T.List[dict]:
+def run_generated(idx: int, files: T.Dict[str, str], root0: str, steps: T.List[dict], geom: str = 'sibling') -> T.List[dict]:
     from . import projgen
-    root = os.path.join(root0, f'g{idx:03d}')
-    proto = os.path.join(root, 'proto')
+    root = os.path.join(root0, f'g{idx:03d}.{geom}')
+    proto = os.path.join(root0, f'g{idx:03d}.proto')
+    os.makedirs(root, exist_ok=True)
     os.makedirs(proto, exist_ok=True)
     projgen.write_project(proto, files)
-    return S.run_plan(proto, root, steps)
+    return S.run_plan(proto, root, steps, geom=geom)
 
 
 def system_layer(ctx: Ctx, root0: str) -> T.Callable[[], None]:
@@ -683,7 +712,14 @@ def system_layer(ctx: Ctx, root0: str) -> T.Callable[[], None]:
             keep = json.load(open(planf)).get('quick_fresh', 4)
             fresh = [s for s in steps if s['kind'] == 'fresh']
             steps = fresh[:1] + fresh[len(fresh) - (keep - 1):] + [s for s in steps if s['kind'] != 'fresh']
-        jobs.append((name, ex.submit(run_fixed, name, root0, steps), {}))
+        # placement of the build directory: the main history runs in a placement drawn at random, and a short
+        # history (fresh, reconfigure, wipe) runs in another one, so that every project meets an in-tree build
+        # directory on every run; the thorough tier runs the short history in all the other placements
+        geom = rng.choice(S.GEOMETRIES)
+        jobs.append((name, ex.submit(run_fixed, name, root0, steps, geom), {'geom': geom}))
+        others = [g for g in S.GEOMETRIES if g != geom] if ctx.deep else ['intree' if geom != 'intree' else 'sibling']
+        for g in others:
+            jobs.append((name, ex.submit(run_fixed, name, root0, placement_steps(rng), g), {'geom': g}))
     try:
         from . import projgen
         n = ctx.scale(3, 40)
@@ -695,7 +731,9 @@ def system_layer(ctx: Ctx, root0: str) -> T.Callable[[], None]:
             spec = projgen.gen_project(sub, tmp)
             common.rmtree(tmp)
             steps = gen_steps(rng)
-            jobs.append((f'gen{i:03d}', ex.submit(run_generated, i, spec['files'], root0, steps), {'files': spec['files']}))
+            geom = rng.choice(S.GEOMETRIES)
+            jobs.append((f'gen{i:03d}', ex.submit(run_generated, i, spec['files'], root0, steps, geom),
+                         {'files': spec['files'], 'geom': geom}))
         ctx.notes.append(f'projgen: {n} random projects')
     except ImportError:
         ctx.notes.append('harness/projgen.py not available: fixed projects only')
@@ -712,6 +750,7 @@ def system_layer(ctx: Ctx, root0: str) -> T.Callable[[], None]:
             else:
                 uo = user_command_outputs(project_texts(os.path.join(S.PROJECTS, name)))
             check_project(ctx, name if not name.startswith('gen') else 'gen', recs, extra, uo)
+            ctx.tag('placement:' + extra.get('geom', 'sibling'))
             nproj += 1
             ctx.tag('project:' + ('generated' if name.startswith('gen') else name))
         ex.shutdown()
@@ -790,12 +829,15 @@ def replay(ctx: Ctx, rep: dict) -> None:
         root0 = common.scratch_dir('c06-')
         try:
             if 'files' in case:
-                recs = run_generated(0, case['files'], root0, case['steps'])
+                recs = run_generated(0, case['files'], root0, case['steps'], case.get('geom', 'sibling'))
                 uo = user_command_outputs(v for k, v in case['files'].items() if k.endswith('meson.build'))
             else:
-                recs = run_fixed(case['project'], root0, case['steps'])
+                recs = run_fixed(case['project'], root0, case['steps'], case.get('geom', 'sibling'))
                 uo = user_command_outputs(project_texts(os.path.join(S.PROJECTS, case['project'])))
-            check_project(ctx, case['project'], recs, {'files': case['files']} if 'files' in case else {}, uo)
+            extra = {'geom': case.get('geom', 'sibling')}
+            if 'files' in case:
+                extra['files'] = case['files']
+            check_project(ctx, case['project'], recs, extra, uo)
         finally:
             S.force_rmtree(root0)
     else:
